@@ -80,6 +80,8 @@ pub proof fn lemma_shl_is_pow2(k: usize)
 }
 
 /// what the fold/query code after the prefix indexes with (lengths agree with the global schedule)
+/// the number of FRI queries the verifier is configured with (native FriParameters::num_queries); the in-circuit verifier's parameters do not carry it
+pub uninterp spec fn sp_configured_num_queries() -> usize;
 pub open spec fn fri_shape_ok(fp: &FriProofTargets, n_betas: nat, ibq: Seq<Vec<Target>>, log_blowup: nat) -> bool {
     &&& n_betas > 0
     &&& fp.commit_phase_commits@.len() == n_betas && fp.commit_pow_witnesses@.len() == n_betas && fp.log_arities@.len() == n_betas
@@ -171,6 +173,11 @@ def build():
     ])
     f.after('let expected_coeffs = ((1usize << expected_log_arity) - 1) * ef_dim;', 'proof { lemma_shl_is_pow2(expected_log_arity); }')
     f.after('let expected_final_poly_len = 1 << log_final_poly_len;', 'proof { lemma_shl_is_pow2(log_final_poly_len); }')
+    # C15 / C07: "each list shortened ... returns an error": the number of query proofs must be the number the verifier is configured with (native: QueryProofCountMismatch).
+    # FriVerifierParams carries no query count, so nothing can establish this: recorded finding (query-count-unchecked).
+    if re.search(r'let num_queries = fri_proof_targets\.query_proofs\.len\(\);', f.body):
+        f.rewrite_re('SPEC', r'(let num_queries = fri_proof_targets\.query_proofs\.len\(\);)',
+                     r'\1 proof { assert(num_queries == sp_configured_num_queries()); } // @@A:H_the_number_of_query_proofs_is_the_configured_number_of_queries\n')
     f.ensures('ok_implies_well_formed', 'ret is Ok ==> fri_shape_ok(fri_proof_targets, betas@.len(), index_bits_per_query@, log_blowup as nat)')
     f.ensures('malformed_is_invalid_proof_shape', 'ret matches Err(e) ==> e is InvalidProofShape')
     u.text('verus! {')
